@@ -17,6 +17,8 @@ import (
 	"github.com/apache/skywalking-banyandb/banyand/internal/storage"
 	"github.com/apache/skywalking-banyandb/banyand/protector"
 	"github.com/apache/skywalking-banyandb/banyand/queue"
+	pbytes "github.com/apache/skywalking-banyandb/pkg/bytes"
+	"github.com/apache/skywalking-banyandb/pkg/compress/zstd"
 	"github.com/apache/skywalking-banyandb/pkg/convert"
 	"github.com/apache/skywalking-banyandb/pkg/fs"
 	"github.com/apache/skywalking-banyandb/pkg/logger"
@@ -355,4 +357,44 @@ func V17StreamNames(name string) string {
 		return name[len(measureTagMetadataPrefix):] + tagFamiliesMetadataFilenameExt
 	}
 	return "?" + name
+}
+
+// ---------------------------------------------------------------------------------------------------------------
+// cluster phase: what a part on a data node holds (block level: series, timestamp bounds, row count)
+
+// V17Block is one block of a part.
+type V17Block struct {
+	Series uint64
+	Min    int64
+	Max    int64
+	Count  uint64
+}
+
+// V17PartBlocks opens the part directory with the real mustOpenFilePart and decodes every block header
+// (primary index -> primary blocks -> block metadata).
+func V17PartBlocks(partDir string) (out []V17Block) {
+	id, err := parseEpoch(filepath.Base(partDir))
+	if err != nil {
+		return nil
+	}
+	p := mustOpenFilePart(id, filepath.Dir(partDir), fs.NewLocalFileSystem())
+	defer p.close()
+	var cbuf, buf []byte
+	for i := range p.primaryBlockMetadata {
+		mr := &p.primaryBlockMetadata[i]
+		cbuf = pbytes.ResizeOver(cbuf, int(mr.size))
+		fs.MustReadData(p.primary, int64(mr.offset), cbuf)
+		buf, err = zstd.Decompress(buf[:0], cbuf)
+		if err != nil {
+			panic(err)
+		}
+		bms, err := unmarshalBlockMetadata(nil, buf)
+		if err != nil {
+			panic(err)
+		}
+		for j := range bms {
+			out = append(out, V17Block{Series: uint64(bms[j].seriesID), Min: bms[j].timestamps.min, Max: bms[j].timestamps.max, Count: bms[j].count})
+		}
+	}
+	return out
 }
